@@ -56,14 +56,14 @@ def mk_device(kind, inp=None):
         return AnalogDevice
     if kind == "digital":
         return DigitalAnalogDevice
-    if kind in ("virt", "virt_nomod", "virt_maxseq"):
+    if kind in ("virt", "virt_nomod", "virt_maxseq", "virt_reuse"):
         mod = None if kind == "virt_nomod" else 20.0  # rise time 24 ns
         eom = None if mod is None else RydbergEOM(
             limiting_beam=RydbergBeam.RED, max_limiting_amp=30 * TWO_PI, intermediate_detuning=700 * TWO_PI,
             mod_bandwidth=48.0, controlled_beams=(RydbergBeam.BLUE,), custom_buffer_time=None)
         return VirtualDevice(
             name="virt", dimensions=2, rydberg_level=60, max_atom_num=10, max_radial_distance=50, min_atom_distance=4,
-            supports_slm_mask=True, reusable_channels=False,
+            supports_slm_mask=True, reusable_channels=(kind == "virt_reuse"),
             max_sequence_duration=(4000 if kind == "virt_maxseq" else None),
             channel_objects=(
                 Rydberg.Global(2 * TWO_PI * 20, TWO_PI * 2.5, clock_period=4, min_duration=8, max_duration=10000,
@@ -110,6 +110,8 @@ def ev(expr, env):
     number on values."""
     import numpy as _np
 
+    if isinstance(expr, dict) and "lit" in expr:
+        return list(expr["lit"])
     if not isinstance(expr, list):
         return expr
     op = expr[0]
@@ -177,9 +179,15 @@ def mk_waveform(inp, w):
     if t == "ramp":
         return RampWaveform(val(inp, w[1]), val(inp, w[2]), val(inp, w[3]))
     if t == "custom":
+        if isinstance(w[1], dict):  # an array-valued expression
+            return CustomWaveform(val(inp, w[1]))
         return CustomWaveform([val(inp, x) for x in w[1]])
     if t == "blackman":
         return BlackmanWaveform(val(inp, w[1]), val(inp, w[2]))
+    if t == "interp":
+        from pulser.waveforms import InterpolatedWaveform
+
+        return InterpolatedWaveform(val(inp, w[1]), val(inp, w[2]), **(dict(times=w[3]) if len(w) > 3 else {}))
     if t == "composite":
         return CompositeWaveform(*[mk_waveform(inp, x) for x in w[1:]])
     raise ValueError(t)
@@ -323,7 +331,10 @@ def wf_desc(wf):
         return (out[0], out[1])
     if stubs.SymWaveform is not None and isinstance(wf, stubs.SymWaveform):
         return ("Sym:" + wf._name, [wf._duration])
-    return (type(wf).__name__, [id(wf)])
+    try:  # Interpolated / Kaiser (concrete): compare by samples
+        return (type(wf).__name__, [float(x) for x in wf._samples.as_array(detach=True)])
+    except Exception:  # noqa: BLE001
+        return (type(wf).__name__, [id(wf)])
 
 
 def snapshot(seq):
